@@ -920,6 +920,84 @@ def rule_r9(prog, res):
     res.floor('R9', 'match_pattern calls in the WSGI transport', k, 1)
 
 
+# ------------------------------------------------------------------- R10
+def rule_r10(prog, res):
+    res.rule('R10', 'HTTP patterns are tried in an order that does not come '
+             'from a set, two patterns answering to the same requests for '
+             'different functions are rejected when the transport is built, '
+             'and an @rpc function cannot take the name of an attribute the '
+             'service class machinery calls (call_wrapper, initialize, ...)')
+    from ..setflow import is_set_expr
+    from ..flow import entails, guards_at, flatten_guards
+    h = prog.cls('spyne.server.http:HttpBase')
+    f = h.methods.get('__init__')
+    if f is None:
+        raise AnalysisError('HttpBase.__init__', 'not found')
+    binds = [a for a in walk_no_defs(f.node) if isinstance(a, ast.Assign) and
+             any(unparse(t) == 'self._http_patterns' for t in a.targets)]
+    res.floor('R10', 'bindings of _http_patterns', len(binds), 1)
+    for a in binds:
+        is_set = is_set_expr(a.value, set(), ())
+        where = '%s:%d' % (f.module.relpath, a.lineno)
+        res.ob('R10', where, 'HttpBase.__init__ binds _http_patterns to %s' %
+               unparse(a.value)[:50], 'VIOLATED' if is_set else 'ok')
+        if is_set:
+            res.finding('R10', 'HttpBase.__init__|patterns-in-a-set', where,
+                        'the patterns are collected in a set of objects that '
+                        'hash by identity and then sorted by (address, host) '
+                        'only: patterns that tie keep the set\'s order, so '
+                        'which function answers changes with the service '
+                        'order and between runs')
+    loops = [lp for lp in walk_no_defs(f.node) if isinstance(lp, ast.For) and
+             'service_method_map' in unparse(lp.iter)]
+    res.floor('R10', 'pattern collecting loops', len(loops), 1)
+    rejects = []
+    for lp in loops:
+        for r in ast.walk(lp):
+            if isinstance(r, ast.Raise):
+                atoms = guardspec.atoms_at(r, lp)
+                if any('.endpoint' in t for t, _ in atoms):
+                    rejects.append(r)
+    where = '%s:%d' % (f.module.relpath, loops[0].lineno)
+    res.ob('R10', where, 'HttpBase.__init__: %d rejections of a second '
+           'endpoint for one pattern' % len(rejects),
+           'ok' if rejects else 'VIOLATED')
+    if not rejects:
+        res.finding('R10', 'HttpBase.__init__|duplicate-patterns-accepted',
+                    where, 'two methods registered under the same (verb, '
+                    'host, address) are both accepted: the first match wins '
+                    'and the other function can never be reached')
+    m = prog.cls('spyne.service:ServiceMeta')
+    g_ = m.methods.get('__init__')
+    if g_ is None:
+        raise AnalysisError('ServiceMeta.__init__', 'not found')
+    sets = [c for c in calls_in(g_.node) if call_name(c) == 'setattr' and
+            len(c.args) == 3 and unparse(c.args[0]) == 'self' and
+            'function' in unparse(c.args[2])]
+    res.floor('R10', 'stores of @rpc functions on the service class',
+              len(sets), 1)
+    for c in sets:
+        k = unparse(c.args[1])
+        st = c
+        while not isinstance(st, ast.stmt):
+            st = st._parent
+        gs = flatten_guards(guards_at(st, stop=g_.node))
+        ok = entails(gs, 'not hasattr(ServiceBaseBase, %s)' % k) or entails(
+            gs, 'not hasattr(ServiceBase, %s)' % k)
+        where = '%s:%d' % (g_.module.relpath, c.lineno)
+        res.ob('R10', where, 'ServiceMeta stores the function under its name '
+               '%s' % ('only when the base class has no such attribute'
+                       if ok else 'whatever the name'),
+               'ok' if ok else 'VIOLATED')
+        if not ok:
+            res.finding('R10', 'ServiceMeta.__init__|hook-name-shadowed',
+                        where, 'an @rpc function named call_wrapper or '
+                        'initialize replaces the hook of that name on the '
+                        'service class: Application.call_wrapper then runs '
+                        'that function for requests naming other methods of '
+                        'the service, and initialize runs without a request')
+
+
 def run(prog, res, tier):
     res.run_rule(rule_r1, prog, res, tier)
     res.run_rule(rule_r2, prog, res)
@@ -930,6 +1008,7 @@ def run(prog, res, tier):
     res.run_rule(rule_r7, prog, res)
     res.run_rule(rule_r8, prog, res)
     res.run_rule(rule_r9, prog, res)
+    res.run_rule(rule_r10, prog, res)
 
 
 _P = 'spyne/protocol/_base.py'
@@ -940,6 +1019,21 @@ _W = 'spyne/server/wsgi.py'
 _X = 'spyne/protocol/xml.py'
 
 MUTANTS = [
+    Mutant('patterns-collected-in-a-set', 'R10', 'fire', _H,
+           in_func('HttpBase.__init__',
+                   "        self._http_patterns = []\n",
+                   "        self._http_patterns = set()\n"),
+           'patterns-in-a-set'),
+    Mutant('duplicate-pattern-check-dropped', 'R10', 'fire', _H,
+           in_func('HttpBase.__init__',
+                   "                if other.endpoint is not patt.endpoint:\n",
+                   "                if False:\n"),
+           'duplicate-patterns-accepted'),
+    Mutant('hook-names-allowed', 'R10', 'fire', 'spyne/service.py',
+           in_func('ServiceMeta.__init__',
+                   "            if hasattr(ServiceBaseBase, k):\n",
+                   "            if hasattr(ServiceBaseBase, k) and k.startswith"
+                   "('_'):\n"), 'hook-name-shadowed'),
     Mutant('member-name-from-class-name', 'R9', 'fire', 'spyne/decorator.py',
            lambda src: src.replace(
                "(_self_ref_replacement.get_type_name(), _in_message_name)",
